@@ -10,6 +10,13 @@ Local Open Scope N_scope.
 Definition flat := RunCodec.flat.
 Definition robs := RunWal.robs.
 
+(** SST: what reading the flipped table file delivered *)
+Definition sent := (bytes * bytes * N * N)%type.      (* internal key, value, meta, expiresAt *)
+Inductive tobs := TOpenErr | TPanic | TRead (ents : list sent) (errors : N).
+Definition sent_eqb (a b : sent) : bool :=
+  let '(k1, v1, m1, x1) := a in let '(k2, v2, m2, x2) := b in
+  bytes_eqb k1 k2 && bytes_eqb v1 v2 && (m1 =? m2) && (x1 =? x2).
+
 Inductive cobs := OPanic | OErr (class : N) | OVal (v : flat).
 Definition to_codec (o : cobs) : RunCodec.cobs :=
   match o with OPanic => RunCodec.OPanic | OErr c => RunCodec.OErr c | OVal v => RunCodec.OVal v end.
@@ -17,7 +24,10 @@ Definition to_codec (o : cobs) : RunCodec.cobs :=
 Inductive case :=
 | Cw (orig : bytes) (recs : list (N * bytes)) (bit : N) (obs : robs) (verr : N)
     (* segment 1 holds [orig] = the encoding of [recs]; bit flipped; Replay observation; VerifyDir error class *)
-| Cv (k : N) (orig : bytes) (bit : N) (obs : cobs) (orig_val : flat).
+| Cv (k : N) (orig : bytes) (bit : N) (obs : cobs) (orig_val : flat)
+| Ct (ref : list sent) (bit : N) (obs : tobs).
+    (* SST file with one bit flipped, read through openTable / Search / iterator; ref = what the
+       intact table delivers. No model of the table format here: oracle only. *)
     (* decoder k (1 = DecodeEntryFrom, 2 = DecodeValueSlice) on the flipped record *)
 
 Definition H (s : string) : bytes := unhex s.
@@ -44,4 +54,13 @@ Definition check (c : case) : verdict :=
         | OVal v => negb (RunCodec.flat_eqb v orig_val)
         end in
       mk_verdict mismatch violation 0
+  | Ct ref bit obs =>
+      match obs with
+      | TOpenErr => ok_verdict
+      | TPanic => ok_verdict
+          (* fail-stop: file/sstable_linux.go reports read errors of the footer by utils.Panic
+             (readCheckError); nothing is served. Counted by the harness as sst_panic. *)
+      | TRead ents _ =>
+          mk_verdict false (negb (forallb (fun e => existsb (sent_eqb e) ref) ents)) 0
+      end
   end.
